@@ -2,15 +2,15 @@
 # tools/confirm_seed2.sh <Cxx> <k>: confirm a sub-agent's change k for property Cxx in its scratch worktree:
 # clean suite summary == patched suite summary (and same failing ids), demo fails with patch, passes without.
 id=$1; k=$2
-wt=/tmp/seed2/wt-$id; out=/tmp/seed2/out-$id
+wt=${SEEDBASE:-/tmp/seed2}/wt-$id; out=${SEEDBASE:-/tmp/seed2}/out-$id
 cd $wt || exit 3
 git checkout -q -- . ; git clean -qfd
 suite() { /venv/bin/python -m pytest -q -p no:cacheprovider --timeout=900 -x --co -q >/dev/null 2>&1; /venv/bin/python -m pytest -q -p no:cacheprovider --timeout=900 2>&1 | grep -E '^(FAILED|ERROR)|passed|failed' | sed 's/ in [0-9.]*s.*//' | sort; }
-[ -f /tmp/seed2/confirm/clean_suite.txt ] || suite > /tmp/seed2/confirm/clean_suite.txt
+[ -f ${SEEDBASE:-/tmp/seed2}/confirm/clean_suite.txt ] || suite > ${SEEDBASE:-/tmp/seed2}/confirm/clean_suite.txt
 git apply $out/patch$k.diff || { echo "$id-$k: patch does not apply"; exit 3; }
-suite > /tmp/seed2/confirm/$id-$k.suite.txt
-if diff -q /tmp/seed2/confirm/clean_suite.txt /tmp/seed2/confirm/$id-$k.suite.txt >/dev/null; then s=same; else s=DIFFERENT; fi
-PYTHONPATH=$wt timeout 600 /venv/bin/python $out/demo$k.py > /tmp/seed2/confirm/$id-$k.demo_with.txt 2>&1; w=$?
+suite > ${SEEDBASE:-/tmp/seed2}/confirm/$id-$k.suite.txt
+if diff -q ${SEEDBASE:-/tmp/seed2}/confirm/clean_suite.txt ${SEEDBASE:-/tmp/seed2}/confirm/$id-$k.suite.txt >/dev/null; then s=same; else s=DIFFERENT; fi
+PYTHONPATH=$wt timeout 600 /venv/bin/python $out/demo$k.py > ${SEEDBASE:-/tmp/seed2}/confirm/$id-$k.demo_with.txt 2>&1; w=$?
 git checkout -q -- . ; git clean -qfd
-PYTHONPATH=$wt timeout 600 /venv/bin/python $out/demo$k.py > /tmp/seed2/confirm/$id-$k.demo_without.txt 2>&1; wo=$?
+PYTHONPATH=$wt timeout 600 /venv/bin/python $out/demo$k.py > ${SEEDBASE:-/tmp/seed2}/confirm/$id-$k.demo_without.txt 2>&1; wo=$?
 echo "$id-$k: suite=$s demo_with_patch=$w demo_without=$wo"
